@@ -761,3 +761,69 @@ _ADD5 = {
 for _pid, _items in _ADD5.items():
     for _field, _txt in _items:
         CLAIMED[_pid][_field] += " " + _txt
+
+_ADD6 = {
+    "C02": [("text", "Every persisted channel parameter that feeds commitment construction (thaw height, csv delays, dust "
+                     "limits, reserves, limits, type bits, scid, balances, key locators, shutdown scripts) is given a "
+                     "non-default value per case and must survive every reload (params_survive_reload). Transactions are "
+                     "additionally executed under the kvdb RETRY contract (closure run, rolled back, reset, run again) in a "
+                     "share of the cases on both backends; finding C02-F3 (7a71987, ClearChannelStatus not retry-safe) was "
+                     "found that way and repaired in /repo."),
+            ("technique", "+ forced transaction-closure retries + parameter-survival predicate")],
+    "C03": [("text", "Channel parameters must survive the reloads of a reconnect (params_survive_reload; non-zero thaw "
+                     "heights on lease/frozen types).")],
+    "C06": [("text", "Stage 'points': every outgoing slot (open/accept first point, channel_ready whenever sent or re-sent, "
+                     "revoke_and_ack fresh or retransmitted, channel_reestablish) carries the index of the sender's chain its "
+                     "slot requires (0, 1, (n, n+2), (n-1, n+1), n): slot model with C06_own_points_no_gap, "
+                     "C06_own_secrets_no_gap, C06_own_chain_bounded, C06_slot_index; tie per observed event through three "
+                     "harnesses (lnwallet, the real peer.loadActiveChannels, real funding flows) against the chain recomputed "
+                     "from the producer root in python."),
+            ("note", "Slot-index theorems are about the model's index discipline; taproot is not driven in the lnwallet "
+                     "points harness; the funding-manager re-send site is reachable only at height 0; a funding harness that "
+                     "exits non-zero under load is run a second time before being reported."),
+            ("technique", "+ slot->index table of all own-chain call sites with per-event resolution against an "
+                          "independently recomputed chain")],
+    "C09": [("text", "Also on every path by which a forwarded ADD reaches the decision (first forward; re-forward after a "
+                     "node death between fwd-pkg write and circuit commit; link flap in that window; batches) the decision is "
+                     "evaluated on the channel policies and the HTLC's own values: path stage on lnd's three-hop fixture "
+                     "with every CheckHtlcForward call observed (arguments and answer) and compared with the configured "
+                     "policy, a python oracle and the Coq model."),
+            ("note", "Path stage: process death is emulated (in-memory batch lost, all nodes restarted from their "
+                     "databases); the onion decoder is the fixture's mock."),
+            ("technique", "+ enumerated stop points x inbound-fee signs x boundary HTLCs on the real link/switch with "
+                          "observed decision arguments")],
+    "C12": [("text", "Also on the running arbitrator's event loop: the start-up grace period is measured from the "
+                     "arbitrator's start and no link event (contract signals, commitment updates, blocks) moves it "
+                     "(C12_loop_grace_reference, C12_loop_deadline, C12_loop_no_spurious; 600 enumerated + 200 seeded "
+                     "histories on the real ChannelArbitrator goroutine with a test clock, whole-history correspondence with "
+                     "Arb/AttendantModel)."),
+            ("note", "Close events are not part of the loop histories (direct cases and C13 cover them); each start is "
+                     "followed by the link's first signal at the same instant."),
+            ("technique", "+ event-loop histories on the running ChannelArbitrator tied to an attendant model")],
+    "C13": [("text", "The mock chain is a UTXO model: spend and confirmation notifications fire only for the exact "
+                     "outpoint / txid and pkScript registered and report the real spender and input index; the mock sweeper "
+                     "re-signs zero-fee second-level HTLC transactions with wallet inputs and aggregates; every real wait of a "
+                     "resolver is compared with the model's per-stage watched-outpoint level after every reload; an outpoint a "
+                     "resolver is parked on at quiescence must exist on chain. 23 scenarios incl. taproot two-stage HTLCs."),
+            ("note", "Taproot is resolver-level only; the channel type stays non-taproot."),
+            ("technique", "+ outpoint-/txid-/script-faithful UTXO chain with a re-signing aggregating sweeper")],
+    "C16": [("text", "Both backends hand back every registered attempt (route, records, blinded data) unchanged and admit a "
+                     "further shard exactly when it is consistent with the stored in-flight shards (C16_shard_admission: "
+                     "sound and complete); enumerated route-shape universe (incl. the hop that is both introduction node and "
+                     "final hop) each with a directed multi-shard history; stored = registered checked field by field per "
+                     "backend in every answer incl. QueryPayments. Known finding C16-F4 (custom record key >= 2^63 refused "
+                     "by SQL only)."),
+            ("technique", "+ enumerated route shapes x directed multi-shard history with a field-wise readback predicate")],
+    "C17": [("text", "Entry of the legacy negotiation: the four ChanCloser calls with the cachedClosingSigned slot are "
+                     "modelled over an arbitrary negotiation core; proved by exhaustive in-Coq exploration that from every "
+                     "reachable pre-negotiation state every interleaving of shutdowns (either/both sides), flush reports and "
+                     "the first closing_signed (parked or not) reaches the canonical start or its one-delivery successor "
+                     "(C17_entry_park_commutes, C17_entry_confluent), hence terminates within n+4 messages on a doubly-signed "
+                     "fee (C17_entry_terminates); all 27 orderings x channel types run on real ChanClosers."),
+            ("note", "RBF early-event orderings: scripted list plus random interleavings, no commutation theorem; "
+                     "C17_entry_terminates is stated for non-taproot."),
+            ("technique", "+ exhaustive ordering enumeration of the negotiation entry (in Coq and on the real closers)")],
+}
+for _pid, _items in _ADD6.items():
+    for _field, _txt in _items:
+        CLAIMED[_pid][_field] += " " + _txt
